@@ -3,7 +3,7 @@
    the theorems below are its laws, for every grammar, text, oracle, configuration and frame.        *)
 From Coq Require Import List NArith.
 From TatsuV Require Import Base.PyStr Engine.Value Engine.Syntax Engine.Input Engine.Engine Engine.Calls
-     Engine.EngineRel Engine.CleanLaws Engine.MemoProof Engine.BoundsProof.
+     Engine.EngineRel Engine.CleanLaws Engine.MemoProof Engine.BoundsProof Engine.FaithfulBounds.
 Import ListNotations.
 
 Section C01.
@@ -93,8 +93,16 @@ Theorem C01_consumed_bounds :
   forall n e f r f', peval' n e f = Ok r f' -> pos f <= len text -> pos f <= pos f' <= len text.
 Proof. exact (peval_consumed_bounds text re_at isalnum isalpha lower upper ic unsafe rules ec act lineat). Qed.
 
+(* the same for the engine as it runs (memo, seeds, left recursion): a successful parse ends inside the text *)
+Theorem C01_consumed_bounds_faithful :
+  (forall id pos n v, re_at id pos = Some (n, v) -> pos + n <= len text) ->
+  forall n start v f' st,
+  parse_with text re_at isalnum isalpha lower upper ic unsafe rules ec act lineat n start = (Ok v f', st) -> pos f' <= len text.
+Proof. exact (parse_consumed_bounds text re_at isalnum isalpha lower upper ic unsafe rules ec act lineat). Qed.
+
 End C01.
 Print Assumptions C01_consumed_bounds.
+Print Assumptions C01_consumed_bounds_faithful.
 Print Assumptions C01_semantics_deterministic.
 Print Assumptions C01_choice_ordered.
 Print Assumptions C01_choice_all_fail.
